@@ -186,7 +186,10 @@ impl ResolvedRoundingOptions {
 
         // 4. Let resolvedOptions be ? SnapshotOwnProperties(? GetOptionsObject(options), null).
         // 5. Let settings be ? GetDifferenceSettings(operation, resolvedOptions, DATE, « », "day", "day").
-        unit_group.validate_unit(options.largest_unit, None)?;
+        // NOTE: "auto" is a valid largestUnit for every unit group.
+        if options.largest_unit != Some(Unit::Auto) {
+            unit_group.validate_unit(options.largest_unit, None)?;
+        }
         // 3. If disallowedUnits contains largestUnit, throw a RangeError exception.
         // 4. Let roundingIncrement be ? GetRoundingIncrementOption(options).
         let increment = options.increment.unwrap_or_default();
@@ -201,6 +204,10 @@ impl ResolvedRoundingOptions {
             DifferenceOperation::Until => options.rounding_mode.unwrap_or(RoundingMode::Trunc),
         };
         // 7. Let smallestUnit be ? GetUnitValuedOption(options, "smallestUnit", unitGroup, fallbackSmallestUnit).
+        // NOTE: "auto" is never a valid smallestUnit.
+        if options.smallest_unit == Some(Unit::Auto) {
+            return Err(TemporalError::range().with_message("smallestUnit cannot be auto."));
+        }
         unit_group.validate_unit(options.smallest_unit, None)?;
         let smallest_unit = options.smallest_unit.unwrap_or(fallback_smallest);
         // 8. If disallowedUnits contains smallestUnit, throw a RangeError exception.
@@ -248,6 +255,10 @@ impl ResolvedRoundingOptions {
         let rounding_mode = options.rounding_mode.unwrap_or_default();
         // 16. Let smallestUnit be ? GetUnit(roundTo, "smallestUnit", DATETIME, undefined).
         UnitGroup::DateTime.validate_unit(options.largest_unit, Some(Unit::Auto))?;
+        // NOTE: "auto" is never a valid smallestUnit.
+        if options.smallest_unit == Some(Unit::Auto) {
+            return Err(TemporalError::range().with_message("smallestUnit cannot be auto."));
+        }
         UnitGroup::DateTime.validate_unit(options.smallest_unit, None)?;
         // 17. If smallestUnit is undefined, then
         // a. Set smallestUnitPresent to false.
@@ -440,11 +451,11 @@ impl Unit {
         // 4. Assert: unit is one of "millisecond", "microsecond", or "nanosecond".
         // 5. Return 1000.
         let max = match self {
-            Year | Month | Week | Day => return None,
+            // NOTE: `Auto` is not a unit of time and has no maximum either.
+            Year | Month | Week | Day | Auto => return None,
             Hour => 24,
             Minute | Second => 60,
             Millisecond | Microsecond | Nanosecond => 1000,
-            Auto => unreachable!(),
         };
 
         Some(max)
